@@ -222,6 +222,10 @@ pub fn id_from_var(
 
     let mut env = env.clone();
     let identifier = Identifier::try_from(var)?.as_mutable(mutable);
+    if matches!(&identifier, Identifier::Multi(ids) if ids.is_empty()) {
+        let msg = "Cannot define an empty tuple of variables";
+        return Err(vec![TypeErr::new(var.pos, msg)]);
+    }
     match (ty, expr) {
         (Some(ty), Some(expr)) => {
             let mut names = vec![];
